@@ -36,15 +36,16 @@ def opt_src(z):
 class Session:
     """One collection on top of a real interpreter stack; a pending observation below is dropped lazily."""
 
-    def __init__(self, t, is_map, pool):
-        self.t, self.is_map = t, is_map
+    def __init__(self, t, is_map, pool, vt=V.VT_INT):
+        self.t, self.is_map, self.vt = t, is_map, vt
+        self.consumed = None
         self.ts = V.type_src(t)
         self.it = fresh_interpreter()
         self.universe = {}
         for v in pool:
             self.universe.setdefault(J(V.value_micheline(v)), v)
         self.pending = False
-        r = self.it.execute(f'EMPTY_MAP {self.ts} int' if is_map else f'EMPTY_SET {self.ts}')
+        r = self.it.execute(f'EMPTY_MAP {self.ts} {vt.src}' if is_map else f'EMPTY_SET {self.ts}')
         assert r.error is None, r.error
 
     def key_of(self, x):
@@ -62,9 +63,11 @@ class Session:
         return False, (self.it.stack.items[0] if observes else None)
 
     def collection(self):
+        if self.consumed is not None:
+            return self.consumed            # a consuming MEM took the (non-duplicable) map off the stack
         coll = self.it.stack.items[1 if self.pending else 0]
         if self.is_map:
-            return [(self.key_of(k), int(v)) for k, v in coll.items]
+            return [(self.key_of(k), self.vt.decode(v)) for k, v in coll.items]
         return [self.key_of(x) for x in coll.items]
 
 
@@ -125,11 +128,20 @@ def gen_set_script(rng, t, pool, n):
     return out
 
 
-def gen_map_script(rng, t, pool, n):
+def gen_map_script(rng, t, pool, n, vt=V.VT_INT):
     out = []
-    z = lambda: rng.choice([0, 1, -1, 7, rng.randrange(-1000, 1000)])  # noqa: E731
+    z = lambda: vt.gen(rng)  # noqa: E731
+    if vt.ticket:
+        # non-duplicable values: no DUP-based observers; updates, GET_AND_UPDATE, then one consuming MEM
+        for _ in range(n):
+            op = 'update' if rng.random() < 0.6 else 'gau'
+            out.append((op, rng.choice(pool), z() if rng.random() < 0.7 else None))
+        out.append(('memc', rng.choice(pool)))
+        return out
     for _ in range(n):
         k = rng.random()
+        if not vt.is_int and 0.84 <= k < 0.89:
+            k = 0.9            # MAP { ...; ADD } needs int values
         if k < 0.4:
             out.append(('update', rng.choice(pool), z() if rng.random() < 0.65 else None))
         elif k < 0.55:
@@ -178,21 +190,21 @@ def run_set_impl(t, pool, script):
     return trace
 
 
-def run_map_impl(t, pool, script):
-    s = Session(t, True, pool)
+def run_map_impl(t, pool, script, vt=V.VT_INT):
+    s = Session(t, True, pool, vt)
     ts = s.ts
     trace = []
 
     def opt(o):
-        return None if o.is_none() else int(o.get_some())
+        return None if o.is_none() else vt.decode(o.get_some())
 
     for ins in script:
         op = ins[0]
         if op == 'update':
-            failed, o = s.run(f'PUSH (option int) {opt_src(ins[2])}; PUSH {ts} {V.value_src(ins[1])}; UPDATE', False)
+            failed, o = s.run(f'{vt.push_opt(ins[2])}; PUSH {ts} {V.value_src(ins[1])}; UPDATE', False)
             ob = ('fail', o) if failed else ('none',)
         elif op == 'gau':
-            failed, o = s.run(f'PUSH (option int) {opt_src(ins[2])}; PUSH {ts} {V.value_src(ins[1])}; GET_AND_UPDATE', True)
+            failed, o = s.run(f'{vt.push_opt(ins[2])}; PUSH {ts} {V.value_src(ins[1])}; GET_AND_UPDATE', True)
             ob = ('fail', o) if failed else ('opt', opt(o))
         elif op == 'get':
             failed, o = s.run(f'DUP; PUSH {ts} {V.value_src(ins[1])}; GET', True)
@@ -200,20 +212,25 @@ def run_map_impl(t, pool, script):
         elif op == 'mem':
             failed, o = s.run(f'DUP; PUSH {ts} {V.value_src(ins[1])}; MEM', True)
             ob = ('fail', o) if failed else ('bool', bool(o))
+        elif op == 'memc':
+            before = s.collection()
+            failed, o = s.run(f'PUSH {ts} {V.value_src(ins[1])}; MEM', False)
+            s.consumed = before
+            ob = ('fail', o) if failed else ('bool', bool(s.it.stack.items[0]))
         elif op == 'size':
             failed, o = s.run('DUP; SIZE', True)
             ob = ('fail', o) if failed else ('nat', int(o))
         elif op == 'iter':
-            failed, o = s.run(f'DUP; NIL (pair {ts} int); SWAP; ITER {{ CONS }}', True)
-            ob = ('fail', o) if failed else ('elts', [(s.key_of(x.items[0]), int(x.items[1])) for x in reversed(list(o.items))])
+            failed, o = s.run(f'DUP; NIL (pair {ts} {vt.src}); SWAP; ITER {{ CONS }}', True)
+            ob = ('fail', o) if failed else ('elts', [(s.key_of(x.items[0]), vt.decode(x.items[1])) for x in reversed(list(o.items))])
         elif op == 'mapadd':
             failed, o = s.run(f'MAP {{ CDR; PUSH int {ins[1]}; ADD }}', False)
             ob = ('fail', o) if failed else ('none',)
         elif op == 'mapconst':
-            failed, o = s.run(f'MAP {{ DROP; PUSH int {ins[1]} }}', False)
+            failed, o = s.run(f'MAP {{ DROP; {vt.push_val(ins[1])} }}', False)
             ob = ('fail', o) if failed else ('none',)
         else:
-            failed, o = s.run(f'DROP; PUSH (map {ts} int) {{ ' + ' ; '.join(f'Elt {V.value_src(k)} {z}' for k, z in ins[1]) + ' }', False)
+            failed, o = s.run(f'DROP; PUSH (map {ts} {vt.src}) {{ ' + ' ; '.join(f'Elt {V.value_src(k)} {vt.lit(z)}' for k, z in ins[1]) + ' }', False)
             ob = ('fail', o) if failed else ('none',)
         trace.append((s.collection(), ob))
     return trace
@@ -270,7 +287,7 @@ def ref_map(t, script):
         elif op == 'get':
             c = V.canon(ins[1])
             ob = ('opt', cur[c][1] if c in cur else None)
-        elif op == 'mem':
+        elif op in ('mem', 'memc'):
             ob = ('bool', V.canon(ins[1]) in cur)
         elif op == 'size':
             ob = ('nat', len(cur))
@@ -344,7 +361,7 @@ def coq_map_instr(ins):
         return f'(MIGetAndUpdate {V.value_coq(ins[1])} {o(ins[2])})'
     if op == 'get':
         return f'(MIGet {V.value_coq(ins[1])})'
-    if op == 'mem':
+    if op in ('mem', 'memc'):
         return f'(MIMem {V.value_coq(ins[1])})'
     if op == 'size':
         return 'MISize'
@@ -366,7 +383,7 @@ def src_of(ins, is_map):
         return f'UPDATE {v(ins[1])} := {opt_src(ins[2]) if is_map else ins[2]}'
     if op == 'gau':
         return f'GET_AND_UPDATE {v(ins[1])} := {opt_src(ins[2])}'
-    if op in ('get', 'mem'):
+    if op in ('get', 'mem', 'memc'):
         return f'{op.upper()} {v(ins[1])}'
     if op == 'push':
         return 'PUSH literal { ' + ' ; '.join((f'Elt {v(k[0])} {k[1]}' if is_map else v(k)) for k in ins[1]) + ' }'
@@ -382,6 +399,8 @@ def run(ctx: lib.Ctx) -> None:
                 'values built by single-leaf mutation (equal first pair components, same hash under another address kind, ...); '
                 'instructions: UPDATE (add/remove, four map branches), GET_AND_UPDATE, GET, MEM, SIZE, ITER {CONS}, MAP {..}, '
                 'PUSH of literals (sorted, adjacent swap, duplicate, shuffled); the whole collection is read after every instruction. '
+                'Map values: int, or bool/string/bytes/list/set/map/option/pair with the pytezos-falsy literal (False, "", 0x, {}) drawn 45 % of the time, '
+                'or non-duplicable option (ticket string) values (updates, GET_AND_UPDATE, then a consuming MEM). '
                 'non-trivial = some key is touched by at least two updating instructions.')
     n_hist = ctx.n(56, 360)
     max_len = ctx.n(30, 300)
@@ -400,6 +419,7 @@ def run(ctx: lib.Ctx) -> None:
     ]
     ctx.corpus_cases = len(corpus)
     for h in range(-len(corpus), n_hist):
+        vt = V.VT_INT
         if h < 0:
             is_map, t, pool, script = corpus[h]
         else:
@@ -407,8 +427,16 @@ def run(ctx: lib.Ctx) -> None:
             t = rng.choice(KEY_TYPES) if rng.random() < 0.8 else V.gen_type(rng, 2, allow_never=False)
             pool = gen_pool(rng, t, rng.randrange(3, 9))
             n = rng.randrange(max_len // 3, max_len + 1) if rng.random() < 0.7 else rng.randrange(1, 8)
-            script = (gen_map_script if is_map else gen_set_script)(rng, t, pool, n)
-        ok, trace = lib.call(run_map_impl if is_map else run_set_impl, t, pool, script)
+            if is_map:
+                # value type: int (arithmetic MAP bodies) 35 %, a type with a FALSY first literal 50 %, tickets (not duplicable) 15 %
+                k = rng.random()
+                vt = V.VT_INT if k < 0.35 else (V.VT_TICKET if k > 0.85 else rng.choice(V.VALUE_TYPES[1:]))
+                if vt.ticket:
+                    n = min(n, 12)
+                script = gen_map_script(rng, t, pool, n, vt)
+            else:
+                script = gen_set_script(rng, t, pool, n)
+        ok, trace = lib.call(run_map_impl, t, pool, script, vt) if is_map else lib.call(run_set_impl, t, pool, script)
         if not ok:
             raise lib.InternalError(f'harness failure while running a history: {trace!r}')
         want = (ref_map if is_map else ref_set)(t, script)
@@ -418,21 +446,23 @@ def run(ctx: lib.Ctx) -> None:
                 touched[V.canon(ins[1])] = touched.get(V.canon(ins[1]), 0) + 1
         ctx.case((t, is_map, tuple(map(repr, script))), nontrivial=any(c >= 2 for c in touched.values()),
                  kind=f'{"map" if is_map else "set"}:{t[0]}:len{min(len(script) // 10 * 10, 300)}',
-                 sample={'key_type': V.type_src(t), 'kind': 'map' if is_map else 'set', 'instructions': [src_of(i, is_map) for i in script][:12],
+                 sample={'key_type': V.type_src(t), 'kind': 'map' if is_map else 'set', 'value_type': vt.src if is_map else None, 'instructions': [src_of(i, is_map) for i in script][:12],
                          'final_size': len(trace[-1][0])})
         for ins in script:
             ctx.dist['op:' + ins[0]] += 1
+        if is_map:
+            ctx.dist['values:' + vt.src] += 1
         tb = V.tables_coq(pool)
         if is_map:
             inp = f'({tb}, {clist(coq_map_instr(i) for i in script)})'
             outp = clist('(' + clist(f'({V.value_coq(k)}, {cZ(z)})' for k, z in coll) + ', ' + coq_obs(ob) + ')' for coll, ob in trace)
             map_cases.append((inp, outp))
-            meta.append(('map', len(map_cases) - 1, t, pool, script, trace, want))
+            meta.append(('map', len(map_cases) - 1, t, pool, script, trace, want, vt))
         else:
             inp = f'({tb}, {clist(coq_set_instr(i) for i in script)})'
             outp = clist('(' + clist(V.value_coq(k) for k in coll) + ', ' + coq_obs(ob) + ')' for coll, ob in trace)
             set_cases.append((inp, outp))
-            meta.append(('set', len(set_cases) - 1, t, pool, script, trace, want))
+            meta.append(('set', len(set_cases) - 1, t, pool, script, trace, want, vt))
     shard = 8 if ctx.thorough else 10
     sbad = set(V.par_mismatches(ctx, 'setscript', IMPORTS, 'set_script_case', 'set_script_eqb',
                                 'text_tables * list (set_instr val)', 'list (list val * obs val)', set_cases, shard=shard))
@@ -441,7 +471,7 @@ def run(ctx: lib.Ctx) -> None:
 
     reported = 0
     corr = []
-    for kind, idx, t, pool, script, trace, want in meta:
+    for kind, idx, t, pool, script, trace, want, vt in meta:
         is_map = kind == 'map'
         got_c, want_c = canon_trace(trace, is_map), canon_trace(want, is_map)
         if got_c != want_c:
@@ -450,7 +480,7 @@ def run(ctx: lib.Ctx) -> None:
                 reported += 1
                 show = lambda tr: {'collection': [(V.value_src(k[0]), k[1]) if is_map else V.value_src(k) for k in tr[0]], 'result': repr(tr[1])[:300]}  # noqa: E731
                 ctx.violation(f'{kind} differs from the reference sorted dictionary after instruction {step} ({src_of(script[step], is_map)})',
-                              {'key_type': V.type_src(t), 'kind': kind, 'instructions': [src_of(i, is_map) for i in script[:step + 1]],
+                              {'key_type': V.type_src(t), 'kind': kind, 'value_type': vt.src + ' (values shown as codes: index into ' + repr([x[0] for x in (vt.lits or [])]) + ', ticket amount, or the int itself)' if is_map else None, 'instructions': [src_of(i, is_map) for i in script[:step + 1]],
                                'observed': show(trace[step]), 'expected': show(want[step]),
                                'repro': f'harness/c14.py run_{kind}_impl(type, pool, script) — EMPTY_{kind.upper()} then the listed instructions through pytezos.michelson.repl.Interpreter'})
         elif idx in (mbad if is_map else sbad):
